@@ -140,7 +140,9 @@ func genCase(t *rapid.T) tcase {
 			f.prohibited = xmpp.Secure
 			f.necessary = 0
 			f.adds = xmpp.Secure
-			f.restart = true
+			// (an application's own feature under the STARTTLS name need not ask
+			// for a restart: one in four does not)
+			f.restart = rapid.IntRange(0, 3).Draw(t, "tlsRestart") > 0
 			f.negotiable = true
 		}
 		if rapid.IntRange(0, 5).Draw(t, "ready") == 0 && !f.isStartTLS {
